@@ -81,16 +81,33 @@ def evalPred (p : Pred) (v : Value) : Bool :=
   | .blob _ => p.op == .gt || p.op == .ge || p.op == .ne
   | .conv _ _ _ => true
 
-def hasSub (s sub : String) : Bool := (s.splitOn sub).length > 1
+def isPrefixL : List Char → List Char → Bool
+  | [], _ => true
+  | _ :: _, [] => false
+  | a :: as, b :: bs => a == b && isPrefixL as bs
+
+/-- `sub` occurs in `s` (structural, so that concrete instances reduce in the kernel) -/
+def hasSubL (sub : List Char) : List Char → Bool
+  | [] => sub.isEmpty
+  | c :: cs => isPrefixL sub (c :: cs) || hasSubL sub cs
+
+def hasSub (s sub : String) : Bool := hasSubL sub.toList (s.toList.map Char.toUpper)
 
 /-- SQLite gives a column TEXT affinity when its declared type contains CHAR, CLOB or TEXT (and not INT, which wins) -/
 def textAffinity (ty : String) : Bool :=
-  let u := ty.toUpper
-  !hasSub u "INT" && (hasSub u "CHAR" || hasSub u "CLOB" || hasSub u "TEXT")
+  !hasSub ty "INT" && (hasSub ty "CHAR" || hasSub ty "CLOB" || hasSub ty "TEXT")
+
+/-- bytewise (= code point) lexicographic order of two texts -/
+def ltL : List Char → List Char → Bool
+  | _, [] => false
+  | [], _ :: _ => true
+  | a :: as, b :: bs => a.toNat < b.toNat || (a.toNat == b.toNat && ltL as bs)
 
 def cmpStr (op : CmpOp) (a b : String) : Bool :=
+  let lt := ltL a.toList b.toList
+  let gt := ltL b.toList a.toList
   match op with
-  | .gt => b < a | .ge => !(a < b) | .lt => a < b | .le => !(b < a) | .eq => a == b | .ne => a != b
+  | .gt => gt | .ge => !lt | .lt => lt | .le => !gt | .eq => a == b | .ne => a != b
 
 /-- `col op k` on a column of declared type `ty`.  Comparing a TEXT-affinity column with a numeric literal applies TEXT affinity to
     the literal: the stored text is compared with the literal's text, bytewise (= code point order for UTF-8); every other column
